@@ -197,6 +197,24 @@ def super_init_calls() -> list[tuple[str, list[tuple[str, str]]]]:
     return out
 
 
+def merge_args_filters() -> list[str]:
+    """source text of the condition(s) under which `Config.merge_args` takes a value from the argparse namespace
+    (the `if` clauses of the comprehension that builds `set_args`)"""
+    tree = ast.parse((SRC / "__main__.py").read_text())
+    fn = _func(tree, "merge_args")
+    out: list[str] = []
+    if fn is None:
+        return out
+    for n in ast.walk(fn):
+        if isinstance(n, (ast.Assign, ast.AnnAssign)):
+            tgt = n.targets[0] if isinstance(n, ast.Assign) else n.target
+            if isinstance(tgt, ast.Name) and tgt.id == "set_args" and isinstance(n.value, (ast.DictComp, ast.Call)):
+                for c in ast.walk(n.value):
+                    if isinstance(c, ast.comprehension):
+                        out += [ast.unparse(i) for i in c.ifs] or ["<no condition>"]
+    return out
+
+
 def _is_stderr_print(stmt: ast.stmt) -> bool:
     if not (isinstance(stmt, ast.Expr) and isinstance(stmt.value, ast.Call)):
         return False
@@ -326,6 +344,10 @@ def generate() -> str:
         "/-- every `return` / `sys.exit` statement of `main()` in source order: (expression, a\n"
         "`print(..., file=sys.stderr)` precedes it in the same block) -/\n"
         "def mainReturns : List (Nat × Bool) :=\n  [" + ",\n   ".join(rows) + "]\n"
+    )
+    out.append(
+        "/-- the `if` clause(s) of the comprehension building `set_args` in `Config.merge_args` (source text) -/\n"
+        f"def mergeArgsFilters : List Nat := {_strs(merge_args_filters())}\n"
     )
     out.append(
         "/-- target versions on which `PythonVersion.has_kw_only_dataclass` holds (used by a Config validator) -/\n"
